@@ -6,6 +6,7 @@ require (
 	github.com/corestario/kyber v1.6.0
 	github.com/lidofinance/dc4bc v0.0.0
 	github.com/prysmaticlabs/prysm/v3 v3.2.1
+	github.com/syndtr/goleveldb v1.0.1-0.20220721030215-126854af5e6d
 	github.com/tyler-smith/go-bip39 v1.1.0
 )
 
@@ -32,7 +33,6 @@ require (
 	github.com/segmentio/kafka-go v0.4.23 // indirect
 	github.com/sirupsen/logrus v1.8.1 // indirect
 	github.com/supranational/blst v0.3.10 // indirect
-	github.com/syndtr/goleveldb v1.0.1-0.20220721030215-126854af5e6d // indirect
 	github.com/thomaso-mirodin/intmath v0.0.0-20160323211736-5dc6d854e46e // indirect
 	go.dedis.ch/fixbuf v1.0.3 // indirect
 	go.dedis.ch/protobuf v1.0.11 // indirect
